@@ -38,8 +38,73 @@ def key_str(k):
     return "PANIC:" + "|".join(k)
 
 
+def _len_bound(repo, fn, cond, base_txt, negate=False):
+    """smallest length of `base` that the condition (or its negation) guarantees, or None"""
+    c = cond
+    while c["k"] == "Paren":
+        c = c["expr"]
+    if c["k"] == "Unary" and c.get("op") == "!":
+        return _len_bound(repo, fn, c["expr"], base_txt, not negate)
+    txt = lambda e: "".join(repo.text(fn.file, e).split()).lstrip("&*")
+    if c["k"] == "MethodCall" and c["method"] == "is_empty" and txt(c["recv"]) == base_txt:
+        return 1 if negate else None
+    if c["k"] == "Binary" and c["op"] in ("==", "!=", ">", ">=", "<", "<="):
+        l, r, op = c["left"], c["right"], c["op"]
+        if r["k"] == "MethodCall":
+            l, r = r, l
+            op = {">": "<", "<": ">", ">=": "<=", "<=": ">="}.get(op, op)
+        if l["k"] == "MethodCall" and l["method"] == "len" and txt(l["recv"]) == base_txt and r["k"] == "Lit" and str(r.get("v", "")).isdigit():
+            k = int(r["v"])
+            if negate:
+                op = {"==": "!=", "!=": "==", ">": "<=", ">=": "<", "<": ">=", "<=": ">"}[op]
+            return {"==": k, ">": k + 1, ">=": k}.get(op)
+    if c["k"] == "Binary" and c["op"] == "&&" and not negate:
+        a, b = _len_bound(repo, fn, c["left"], base_txt), _len_bound(repo, fn, c["right"], base_txt)
+        return max([x for x in (a, b) if x is not None], default=None)
+    return None
+
+
+def guarded_literal_index(repo, site):
+    """`v[k]` with a literal k, standing where a test of `v.len()` / `v.is_empty()` on the same (immutable since) receiver
+    guarantees len > k: an enclosing `if`, or an earlier `if .. { return / continue / break }` in an enclosing block"""
+    fn = repo.fn(site["owner"]) or repo.fn(site["fn"])
+    if fn is None:
+        return None
+    pm = A.parent_map(fn.body)
+    for n in A.walk(fn.body):
+        if n["k"] != "Index" or n["l"] != site["line"] or n["index"]["k"] != "Lit" or not str(n["index"].get("v", "")).isdigit():
+            continue
+        k = int(n["index"]["v"])
+        base_txt = "".join(repo.text(fn.file, n["base"]).split()).lstrip("&*")
+        best = None
+        for g, role in A.guards_of(n, pm):
+            if g["k"] == "If" and role in ("then", "else"):
+                b = _len_bound(repo, fn, g["cond"], base_txt, negate=(role == "else"))
+                if b is not None:
+                    best = max(best or 0, b)
+        for kind, cnd, st in A.preceding_guards(n, pm):
+            if kind == "if":
+                b = _len_bound(repo, fn, cnd, base_txt, negate=True)
+                if b is not None:
+                    best = max(best or 0, b)
+        if best is not None and best > k:
+            return f"`{base_txt}[{k}]` under a test that guarantees {base_txt}.len() >= {best}"
+    return None
+
+
 def panic_rule(repo, mir, reach, res, rule="PANIC"):
     inv = RPN.inventory(mir, reach)
+    # an index by a literal below a length the surrounding tests guarantee needs no row
+    keep = []
+    discharged = collections.Counter()
+    for i in inv:
+        why = guarded_literal_index(repo, i) if i["kind"] == "index" and not i.get("mech") else None
+        if why:
+            discharged[group_key(i)] += 1
+            res.ok(rule, f"{rule}:{i['owner']}|index|guarded-literal", why, f"{i['file']}:{i['line']}")
+        else:
+            keep.append(i)
+    inv = keep
     # additions on u32/usize are discharged as a class (ARITH rule below), everything else row by row
     tabled = [i for i in inv if not i.get("mech")]
     groups = collections.Counter(group_key(i) for i in tabled)
@@ -59,12 +124,12 @@ def panic_rule(repo, mir, reach, res, rule="PANIC"):
 
     deficit = collections.Counter()
     for k, r in rows.items():
-        have = groups.get(k, 0)
+        have = groups.get(k, 0) + discharged.get(k, 0)
         if have < r["count"]:
             deficit[sig(k)] += r["count"] - have
     moved_from = {}
     for k, r in rows.items():
-        if groups.get(k, 0) < r["count"]:
+        if groups.get(k, 0) + discharged.get(k, 0) < r["count"]:
             moved_from.setdefault(sig(k), []).append(r)
     for k, n in sorted(groups.items()):
         r = rows.get(k)
@@ -80,6 +145,11 @@ def panic_rule(repo, mir, reach, res, rule="PANIC"):
             continue
         if r is None:
             res.bad(rule, key_str(k), f"panic-capable site with no row in tables/panic_sites.toml: {k[1]} {k[2]} in {k[0]}" + (f" (value produced by {k[3]})" if k[3] else "") + f" at {where[k]}", loc)
+            continue
+        if r["count"] > n:
+            # fewer sites than confirmed (removed, moved, or discharged mechanically above): nothing new to argue
+            classes[r["class"]] += n
+            res.ok(rule, key_str(k), f"{n} of the {r['count']} confirmed sites remain ({r['class']}: {r['why']})", loc)
             continue
         if r["count"] != n:
             res.bad(rule, key_str(k), f"{n} such sites in {k[0]}, the table confirms {r['count']} ({r['class']}: {r['why']}); new site among {where[k]}", loc)
@@ -308,7 +378,8 @@ def ord_rule(repo, mir, res, rule="ORD"):
         return
     # its path argument is the --<shell> path
     a0 = A.resolve(script_call["args"][0], envs.get(id(script_call)))
-    res.check("Some.0" in A.show(a0) and any(s in A.show(a0) for s in (".bash", ".fish", ".zsh", ".pwsh")), rule, f"{rule}:{fq}:script-path", f"script destination = {A.show(a0)[:120]}", f"{fn.file}:{script_call['l']}")
+    flds = A.reach_fields(script_call["args"][0], envs.get(id(script_call)))
+    res.check(("Some.0" in A.show(a0) and any(s in A.show(a0) for s in (".bash", ".fish", ".zsh", ".pwsh"))) or ({"bash", "fish", "zsh", "pwsh"} <= flds and not ({"regex", "dfa"} & flds)), rule, f"{rule}:{fq}:script-path", f"script destination = {A.show(a0)[:120]}", f"{fn.file}:{script_call['l']}")
     # MIR block of that call
     blk = None
     for i, b in enumerate(mfn.blocks):
